@@ -106,6 +106,7 @@ class Program:
         self._load()
         self._imports()
         self._classes()
+        self.by_key = {f.key: f for f in self.funcs}
 
     # ------------------------------------------------------------------ loading
     def _load(self):
